@@ -2263,10 +2263,10 @@ def reset_valid(c):
         xs = np.linspace(0, w - 1, num=lw + 1, dtype=int)
         if len(set(ys)) != len(ys) or len(set(xs)) != len(xs):
             return False
-        # degenerate (height-0 / width-0) rooms are accepted by the code whenever no passage has to
-        # be sampled inside them; no closed formula is asserted there
+        # a room without interior (two adjacent split lines) cannot be honoured: the two wall lines get
+        # independent passages and the floor falls apart (F12, repaired: the code rejects them)
         if any(b - a < 2 for a, b in zip(ys, ys[1:])) or any(b - a < 2 for a, b in zip(xs, xs[1:])):
-            return None
+            return False
         floor = sum((b - a - 1) for a, b in zip(ys, ys[1:])) * sum((b - a - 1) for a, b in zip(xs, xs[1:])) + (lh - 1) * lw + lh * (lw - 1)
         if n == 'rooms':
             return floor >= 2
@@ -3171,7 +3171,7 @@ class C14(Oracle):
         while True:
             k += 1
             name = names[k % len(names)]
-            params = corr_win.valid_params(rng, name)
+            params = corr_win.valid_params(rng, name) if rng.random() < 0.8 else corr_win.near_valid_params(rng, name)
             yield {'kind': 'reset', 'name': name, 'params': params, 'seed': rng.randrange(2**31)}
 
     def from_line(self, line):
